@@ -44,6 +44,8 @@ fn describe(ctx: &Ctx) {
     ctx.assume("a rectangle is shifted corner by corner: an insert point inside a range makes it grow, a removed band strictly inside a range makes it shrink (needed for remove-undoes-insert)");
     ctx.assume("ranges that partly overlap a removed band are only generated in the sub-check `partial-overlap` and judged by the weak oracle (no panic, inside the grid, start <= end)");
     ctx.assume("hyperlinks live on cells in this API; for move/copy the statement does not name them, so the hyperlink of a cell written by move/copy is not compared when source or overwritten cell had one");
+    ctx.assume("sub-check `lazy`: the built workbook is saved and reopened with read_reader(.., false); cases whose eager reload no longer shows the projection (a save/reload matter, other properties) are discarded; non-trivial = a workbook-level edit with effect hits a sheet that is still raw");
+    ctx.assume("column letters are passed in upper, lower and mixed case (\"B\", \"b\", \"aB\"): the entry points take the letter of a column, and column letters are case-insensitive throughout the library's coordinate parsing");
     ctx.assume("no formulas are placed in cells (reference adjustment is C08); every generated cell has a non-empty value, so 'non-blank source cell' is unambiguous");
 }
 
@@ -88,6 +90,139 @@ fn strat_partial(t: Tier) -> BoxedStrategy<Case> {
     case_strategy(true, t.pick(12, 24))
 }
 
+/// Lazy stratum: the workbook is saved, reopened with `read_reader(.., false)` (sheets stay
+/// raw), a generated subset of the sheets is materialised, and the workbook-level part of
+/// a history (insert/remove rows/columns by sheet name) is applied; then everything is
+/// materialised and compared with the reference grid.
+#[derive(Clone, Debug, Serialize, Deserialize)]
+pub struct LazyCase {
+    pub sheets: Vec<SheetSpec>,
+    pub ops: Vec<AOp>,
+    /// bit i set: sheet i is materialised (`read_sheet(i)`) before the history starts
+    pub materialise: u8,
+}
+
+fn strat_lazy(t: Tier) -> BoxedStrategy<LazyCase> {
+    let kinds = vec![
+        (2, AKind::InsertRows),
+        (2, AKind::InsertCols),
+        (3, AKind::RemoveRows),
+        (3, AKind::RemoveCols),
+    ];
+    (
+        prop::collection::vec(sheet_spec(t.pick(10, 20), true), 1..=3),
+        prop::collection::vec(aop(kinds), 1..=8),
+        0u8..8,
+    )
+        .prop_map(|(sheets, ops, materialise)| LazyCase { sheets, ops, materialise })
+        .boxed()
+}
+
+fn check_lazy(case: &LazyCase, obs: &mut Obs) -> Verdict {
+    let mut tags = Tags::default();
+    let (book0, mut model) = match guard(|| build_book(&case.sheets, &mut tags)) {
+        Ok(x) => x,
+        Err(p) => return Verdict::fail(format!("build/panic:{}", p.site()), p.short()),
+    };
+    // save + reopen; what a save/reload does to content is other properties' subject
+    // (C01/C05/C06): if the eagerly reloaded workbook does not show the projection any
+    // more, the case is not usable here
+    let bytes = match guard(|| {
+        let mut v: Vec<u8> = Vec::new();
+        umya_spreadsheet::writer::xlsx::write_writer(&book0, &mut v).map(|_| v)
+    }) {
+        Ok(Ok(v)) => v,
+        _ => return Verdict::Discard("the built workbook could not be saved".into()),
+    };
+    let eager = guard(|| umya_spreadsheet::reader::xlsx::read_reader(std::io::Cursor::new(bytes.clone()), true));
+    match eager {
+        Ok(Ok(b)) => {
+            if let Some((i, d)) = compare_book_with(&b, &model, 0, true) {
+                return Verdict::Discard(format!("save+reload does not preserve the projection (sheet {}: {}/{})", i, d.obj, d.mode));
+            }
+        }
+        _ => return Verdict::Discard("the saved workbook could not be read back".into()),
+    }
+    let mut book = match guard(|| umya_spreadsheet::reader::xlsx::read_reader(std::io::Cursor::new(bytes.clone()), false)) {
+        Ok(Ok(b)) => b,
+        _ => return Verdict::Discard("the saved workbook could not be opened lazily".into()),
+    };
+    let nsheets = model.sheets.len();
+    let mut raw: Vec<bool> = vec![true; nsheets];
+    for i in 0..nsheets {
+        if case.materialise & (1 << i) != 0 {
+            if let Err(p) = guard(|| {
+                book.read_sheet(i);
+            }) {
+                return Verdict::fail(format!("lazy/read_sheet/panic:{}", p.site()), p.short());
+            }
+            raw[i] = false;
+        }
+    }
+    obs.class(format!("sheets-left-raw:{}", raw.iter().filter(|x| **x).count()));
+    let mut trace: Vec<String> = Vec::new();
+    for (i, aop) in case.ops.iter().enumerate() {
+        let sheet = pick_idx(aop.sheet, nsheets);
+        let occ = Occ::from_model(&model.sheets[sheet]);
+        let mut cx = ResolveCtx {
+            occ: &occ,
+            sheet,
+            allow_partial: false,
+            tags: &mut tags,
+            steered: 0,
+            bulk_limit: 0,
+            from_other_variants: false,
+        };
+        let mut op = match resolve(aop, &mut cx) {
+            Resolved::Skip(why) => {
+                obs.class(format!("skipped:{}", why));
+                continue;
+            }
+            Resolved::Op(op) => op,
+        };
+        // only the workbook-level entry points work on a workbook whose sheets are raw
+        match &mut op {
+            COp::Insert { book_level, .. } | COp::Remove { book_level, .. } => *book_level = true,
+            _ => continue,
+        }
+        let kind = op.kind_name();
+        trace.push(format!("#{} {:?}", i, op));
+        if let Err(pn) = guard(|| apply_lib(&mut book, &op)) {
+            return Verdict::fail(
+                format!("lazy:{}/panic:{}", kind, pn.site()),
+                format!("{} ; materialised {:#05b}; history: {}", pn.short(), case.materialise, trace.join("; ")),
+            );
+        }
+        let (nt, _) = apply_model(&mut model, &op);
+        obs.class(format!("op:{}", kind));
+        if raw[sheet] {
+            obs.class(format!("first-edit-of-raw-sheet:{}", kind));
+            // a workbook-level edit loads the sheets it needs; from here on the sheet is
+            // expected to behave like a loaded one
+            raw[sheet] = false;
+            obs.nontrivial(nt);
+        }
+    }
+    if let Err(pn) = guard(|| {
+        book.read_sheet_collection();
+    }) {
+        return Verdict::fail(format!("lazy/read_sheet_collection/panic:{}", pn.site()), pn.short());
+    }
+    if let Some((si, d)) = compare_book_with(&book, &model, 0, true) {
+        return Verdict::fail(
+            format!("lazy-workbook-level/{}/{}", d.obj, d.mode),
+            format!(
+                "lazily opened workbook (materialised first: {:#05b}) after the history, sheet {} differs from the reference grid: {} ; history: {}",
+                case.materialise,
+                si,
+                d.detail,
+                trace.join("; ")
+            ),
+        );
+    }
+    Verdict::Pass
+}
+
 fn subs() -> Vec<Box<dyn DynSub>> {
     vec![
         Box::new(Sub {
@@ -103,6 +238,13 @@ fn subs() -> Vec<Box<dyn DynSub>> {
             cases: (1000, 25000),
             check,
             max_shrink_iters: 6000,
+        }),
+        Box::new(Sub {
+            name: "lazy",
+            strategy: strat_lazy,
+            cases: (250, 6000),
+            check: check_lazy,
+            max_shrink_iters: 3000,
         }),
     ]
 }
@@ -153,6 +295,13 @@ pub fn raw_rect(r: &Range) -> Result<Rect, String> {
 }
 
 pub fn dump_sheet(ws: &Worksheet) -> SheetDump {
+    dump_sheet_with(ws, false)
+}
+
+/// `reloaded`: the sheet went through save + reload; styles are read by their fill colour
+/// only and a dimension entry is explicit by size/hidden alone (the reader materialises
+/// workbook defaults into styles).
+pub fn dump_sheet_with(ws: &Worksheet, reloaded: bool) -> SheetDump {
     let mut d = SheetDump {
         name: ws.get_name().to_string(),
         ..Default::default()
@@ -163,14 +312,14 @@ pub fn dump_sheet(ws: &Worksheet) -> SheetDump {
             row: *co.get_row_num(),
             col: *co.get_col_num(),
             value: cell.get_value().to_string(),
-            style: style_tag_of(cell.get_style()),
+            style: if reloaded { style_tag_lenient(cell.get_style()) } else { style_tag_of(cell.get_style()) },
             hl: cell.get_hyperlink().map(|h| h.get_url().to_string()),
         });
     }
     d.cells.sort_by_key(|c| (c.row, c.col));
     let default_style = umya_spreadsheet::Style::default();
     for r in ws.get_row_dimensions() {
-        let explicit = *r.get_height() != 0.0 || *r.get_custom_height() || *r.get_hidden() || *r.get_style() != default_style;
+        let explicit = *r.get_height() != 0.0 || *r.get_custom_height() || *r.get_hidden() || (!reloaded && *r.get_style() != default_style);
         d.rows.push(DDim {
             idx: *r.get_row_num(),
             size: *r.get_height(),
@@ -180,7 +329,7 @@ pub fn dump_sheet(ws: &Worksheet) -> SheetDump {
     }
     d.rows.sort_by_key(|r| r.idx);
     for c in ws.get_column_dimensions() {
-        let explicit = *c.get_width() != 8.38 || *c.get_hidden() || *c.get_best_fit() || *c.get_style() != default_style;
+        let explicit = *c.get_width() != 8.38 || *c.get_hidden() || *c.get_best_fit() || (!reloaded && *c.get_style() != default_style);
         d.cols.push(DDim {
             idx: *c.get_col_num(),
             size: *c.get_width(),
@@ -450,6 +599,10 @@ pub fn compare_sheet(m: &MSheet, d: &SheetDump) -> Option<Discrepancy> {
 }
 
 fn compare_book(book: &Spreadsheet, model: &MBook, first: usize) -> Option<(usize, Discrepancy)> {
+    compare_book_with(book, model, first, false)
+}
+
+fn compare_book_with(book: &Spreadsheet, model: &MBook, first: usize, reloaded: bool) -> Option<(usize, Discrepancy)> {
     let sheets = book.get_sheet_collection_no_check();
     if sheets.len() != model.sheets.len() {
         return Some((
@@ -466,7 +619,7 @@ fn compare_book(book: &Spreadsheet, model: &MBook, first: usize) -> Option<(usiz
     let mut order: Vec<usize> = vec![first];
     order.extend((0..sheets.len()).filter(|&i| i != first));
     for i in order {
-        let d = dump_sheet(&sheets[i]);
+        let d = dump_sheet_with(&sheets[i], reloaded);
         if let Some(x) = compare_sheet(&model.sheets[i], &d) {
             return Some((i, x));
         }
@@ -564,6 +717,7 @@ fn check(case: &Case, obs: &mut Obs) -> Verdict {
             tags: &mut tags,
             steered: 0,
             bulk_limit: 0,
+            from_other_variants: false,
         };
         let resolved = resolve(aop, &mut cx);
         steered_total += cx.steered;
@@ -574,7 +728,13 @@ fn check(case: &Case, obs: &mut Obs) -> Verdict {
             }
             Resolved::Op(op) => op,
         };
-        let kind = op.kind_name();
+        let mut kind = op.kind_name();
+        if let COp::Insert { by_letter: true, call, .. } | COp::Remove { by_letter: true, call, .. } = &op {
+            if call.letter_case != 0 {
+                // a different input feature class: the letter is not in canonical upper case
+                kind = format!("{}[{}-case-letter]", kind, ["upper", "lower", "mixed"][call.letter_case as usize % 3]);
+            }
+        }
         let level = match &op {
             COp::Insert { book_level, .. } | COp::Remove { book_level, .. } => {
                 if *book_level {
@@ -606,6 +766,9 @@ fn check(case: &Case, obs: &mut Obs) -> Verdict {
         obs.class(format!("op:{}", kind));
         if !level.is_empty() {
             obs.class(format!("{}:{}", level, kind));
+        }
+        if let COp::Insert { by_letter: true, call, .. } | COp::Remove { by_letter: true, call, .. } = &op {
+            obs.class(format!("column-letter:{}", ["upper", "lower", "mixed"][call.letter_case as usize % 3]));
         }
         for l in labels {
             obs.class(format!("{}:{}", kind, l));
@@ -642,7 +805,7 @@ fn check(case: &Case, obs: &mut Obs) -> Verdict {
             }
         }
         // metamorphic: remove(p,n) after insert(p,n) restores the pre-insert projection
-        if let (Some((snapshot, model0)), COp::Insert { sheet, axis, book_level, by_letter, p, n }) = (pre, &op) {
+        if let (Some((snapshot, model0)), COp::Insert { sheet, axis, book_level, by_letter, p, n, call }) = (pre, &op) {
             let undo = COp::Remove {
                 sheet: *sheet,
                 axis: *axis,
@@ -650,6 +813,7 @@ fn check(case: &Case, obs: &mut Obs) -> Verdict {
                 by_letter: *by_letter,
                 p: *p,
                 n: *n,
+                call: *call,
             };
             let r = guard(|| {
                 let mut c = snapshot;
